@@ -31,6 +31,7 @@ def run(ctx):
     check_eq(ctx, prog)
     check_geometry(ctx, prog)
     check_rehash(ctx, prog)
+    check_rehash_model(ctx, prog)
     check_stale(ctx, prog)
     k = rc.check_family(ctx, prog, 'HashMap')
     ctx.floor('R-RC HashMap special members', k, 9)
@@ -791,3 +792,97 @@ def check_map_alias(ctx, prog):
     ac = alias.AliasClass(prog, ctx, 'Map', 'asl::Map', (), ('a',), map_risk)
     unsafe, n = ac.run('R-ALIAS', extern_summaries=unsafe_arr)
     ctx.floor('R-ALIAS Map members x at-risk params', n, 4)
+
+
+def check_rehash_model(ctx, prog):
+    """C02.rehash (model): `rehash()` interpreted (scansim) on a model table - 2 or 4 buckets behind the header slots, a chain of
+    one or two nodes in every bucket, the count at the growth threshold.  Afterwards every node must hang, exactly once, in the
+    chain of the bucket that `binOf(key)` - interpreted on the new table - selects (so lookups find every entry that was
+    inserted), and no chain may contain a node twice."""
+    import scansim
+    fs = [f for f in hm_members(prog, 'rehash') if not f['params']]
+    binofs = dict((g['cls'], g) for g in hm_members(prog, 'binOf'))
+    n = 0
+    for f in fs:
+        bo = binofs.get(f.get('cls'))
+        if bo is None:
+            continue
+        kt = T(bo, bo['params'][0]['t'])
+        kt = T(bo, kt.get('to')) if kt.get('ref') else kt
+        if not kt.get('int'):
+            continue
+        n += 1
+        ctx.analysed(f)
+        role = 'rehash:every entry is found in the grown table'
+        bad = und = None
+        runs = 0
+        skip_stmt = lambda st: st.get('k') == 'expr' and any(w.get('k') == 'bin' and w.get('op') == '=' and strip_lv(w['x']).get('k') == 'call' and (strip_lv(w['x']).get('pq') or '').endswith('::_n') for w in ir.stmt_exprs(st))
+        for nb in (2, 4):
+            for keys in ([1, 2, 3, 4, 5, 6, 7, 8][:nb * 2], [k * 37 + 11 for k in range(nb * 2)], [nb - 1 + nb * j for j in range(3)] + list(range(nb))):
+                skip = None
+                # SKIP is read off binOf: bucket of key 0 on the old geometry
+                table0 = [len(keys), 0] + [0] * nb
+                try:
+                    skip = scansim.Run(prog, bo, {('O', 'bk'): list(table0)}, mems={'a': ('P', ('O', 'bk'), 0)}, methods={'*': 'interp'}, objects=True)
+                    skip.objlen['bk'] = len(table0)
+                    skip.vars[bo['params'][0]['id']] = 0
+                    hdr = skip.run()
+                except (scansim.Unsupported, scansim.OOB, TypeError, KeyError) as u:
+                    und = 'binOf: %s' % u
+                    break
+                table = [len(keys)] + [0] * (hdr - 1) + [0] * nb
+                recs = {}
+                for i, k in enumerate(keys):
+                    rb = scansim.Run(prog, bo, {('O', 'bk'): list(table)}, mems={'a': ('P', ('O', 'bk'), 0)}, methods={'*': 'interp'}, objects=True)
+                    rb.objlen['bk'] = len(table)
+                    rb.vars[bo['params'][0]['id']] = k
+                    b = rb.run()
+                    recs['n%d' % i] = {'key': k, 'value': 2 * k, 'next': table[b] if table[b] else 0}
+                    table[b] = ('R', 'n%d' % i)
+                bufs = {('O', 'bk'): table}
+                mems = {'a': ('P', ('O', 'bk'), 0)}
+                r = scansim.Run(prog, f, bufs, mems=mems, methods={'*': 'interp'}, objects=True, ignore=skip_stmt)
+                r.recs.update(recs)
+                r.objlen['bk'] = len(table)
+                runs += 1
+                desc = 'a table of %d buckets holding the keys %s' % (nb, keys)
+                try:
+                    r.run()
+                except scansim.OOB as o:
+                    bad = 'rehash of %s leaves the bucket arrays: %s' % (desc, o)
+                    break
+                except (scansim.Unsupported, TypeError, KeyError, IndexError) as u:
+                    und = '%s: %s' % (desc, u)
+                    break
+                pv = mems.get('a')
+                newt = bufs.get(pv[1]) if isinstance(pv, tuple) and pv[0] == 'P' else None
+                if newt is None or len(newt) <= len(table):
+                    und = '%s: the table did not grow (threshold not reached in the model)' % desc
+                    break
+                where = {}
+                for bi in range(hdr, len(newt)):
+                    p_, steps = newt[bi], 0
+                    while isinstance(p_, tuple) and p_[0] == 'R' and steps < 20:
+                        where.setdefault(p_[1], []).append(bi)
+                        p_ = r.recs[p_[1]]['next']
+                        steps += 1
+                for i, k in enumerate(keys):
+                    rb = scansim.Run(prog, bo, {('O', 'nt'): list(newt)}, mems={'a': ('P', ('O', 'nt'), 0)}, methods={'*': 'interp'}, objects=True)
+                    rb.objlen['nt'] = len(newt)
+                    rb.vars[bo['params'][0]['id']] = k
+                    want = rb.run()
+                    got = where.get('n%d' % i, [])
+                    if got != [want]:
+                        bad = 'after rehash of %s the entry with key %d is %s, lookups search bucket %d: %s' % (
+                            desc, k, 'in no chain' if not got else 'in bucket(s) %s' % got, want, 'the entry is lost (length() still counts it, find/has miss it, the node leaks)' if not got else 'lookups miss it')
+                        break
+                if bad:
+                    break
+            if bad or und:
+                break
+        ctx.evaluations += runs
+        if und:
+            ctx.undecided('C02.rehash', f['pq'], role, fwhere(f), 'outside the interpreted fragment: %s' % und)
+        else:
+            ctx.check(bad is None, 'C02.rehash', f['pq'], role, fwhere(f), 'interpreted on %d model tables: every node hangs once in the bucket binOf() selects on the grown table' % runs, bad or '')
+    ctx.floor('C02.rehash model instantiations with integer keys', n, 1)
